@@ -34,6 +34,9 @@ CLAIMS = {
     'C19': dict(
         text="Decides necessary structural conditions for all inputs/configurations: every literal of a model type is produced after the Ok arm of a shared validator, by a view/conversion of an existing model, or behind inline rejecting guards (private producers discharged at their callers); the float-table ingesters agree on sign and length checks and the (symbols, probabilities) constructors reject a count mismatch in both directions (no silent zip); no accept/reject decision is an ordering comparison against wrapping_pow2(PRECISION) without a zero/precision test (it degenerates at PRECISION == BITS); the validator's accept decision depends on every accumulator. Known finding (printed, exit 0): the lazy categorical constructor accepts negative weights by design trade-off. Not decided: that an accepted table satisfies C03 numerically.",
         tech="who-may-construct (literal-site) analysis with validator reachability; Engler-style sibling agreement of argument checks; two-point constant domain for wrapping_pow2; compile-fail witnesses (thorough)"),
+    'C20': dict(
+        text="Obligation audit of every call to an `unsafe` callee in the library (56 sites on the current tree; found from callee signatures in MIR so macro-expanded sites are included). Machine-discharged: index/range bounds from dominating guards with helper inlining and no-underflow side conditions (BOUND), tabled non-zero shift idioms under dominating guards (NONZERO-LOCAL), binary-search comparators that never return Equal (COMPARATOR), const-generic precondition entailment for the unsafe precision changers (PRECOND), core NonZero guarantee and forwards inside unsafe fns (TRUSTED-TYPE/FORWARD), entry index of the Huffman table walks. Data-dependent sites are TRUSTED-DATA: their invariants are enumerated in `assumptions`, and their structural half is checked: owning model types are built from strictly validated data only (a user-implementable IterableEntropyModel does not count), lookup tables have their length established, no unchecked access relies on an invariant that a safe `&mut` accessor can break, unsafe traits are implemented for std types only, no transmute/raw-pointer dereference. Unrecognised or new unsafe operations fail closed. Not decided: the TRUSTED-DATA invariants themselves (cdf monotonicity, Huffman node indices) and wrap-dependent arithmetic.",
+        tech="unsafe-site obligation audit over MIR: difference-bound proofs, dominating-guard idiom table, comparator scan, const-generic entailment, who-may-construct / length-establishment / &mut-escape rules"),
 }
 
 NA = {
